@@ -107,6 +107,93 @@ LP_STRATS = ["pole", "z", "pole_exp", "z_exp"]
 RES_STRATS = ["poles_exp", "freq_poles_exp", "z_exp", "freq_z_exp"]
 COMB_STRATS = ["fb", "tau", "ff"]
 GT_STRATS = ["sampled", "slaney", "klapuri"]
+# what a StrategyDict called directly / a parameter left out means (lazy_filters.py, lazy_auditory.py): the Lean side
+# of the same table is ALV/Model/C13Call.lean (lowpassCall ... erbCall), theorem calls_with_omitted_parameters
+DEFAULT_STRATEGY = {"lowpass": "pole", "highpass": "z", "resonator": "poles_exp", "comb": "fb", "gammatone": "sampled",
+                    "erb": "gm90"}
+ALIASES = {("comb", "fb"): ["alpha", "fb_alpha", "feedback_alpha"], ("comb", "tau"): ["fb_tau", "feedback_tau"],
+           ("comb", "ff"): ["ff_alpha", "feedforward_alpha"],
+           ("erb", "gm90"): ["glasberg_moore_90", "glasberg_moore"], ("erb", "mg83"): ["moore_glasberg_83"]}
+HARNESS_KEYS = ("via", "args", "spell", "nocontract", "rate", "fhz", "sig")   # never sent to the driver
+UTOL = 4             # coefficients of the designs whose operation order the model copies: within 4 ulp of the largest
+#                      coefficient (measured: bit-exact, same libm on both sides; histogram coef_ulp)
+
+
+def _strategy(c):
+    return c.get("strategy", DEFAULT_STRATEGY.get(c["entry"], ""))
+
+
+def _param_names(c):
+    """(case key, python parameter name) of the call, in positional order"""
+    e = c["entry"]
+    if e in ("lowpass", "highpass"):
+        return [("cutoff", "cutoff")]
+    if e == "resonator":
+        return [("freq", "freq"), ("bandwidth", "bandwidth")]
+    if e == "comb":
+        return [("delay", "delay"), ("param", "tau" if _strategy(c) == "tau" else "alpha")]
+    if e == "gammatone":
+        return [("freq", "freq"), ("bandwidth", "bandwidth")] + (
+            [("phase", "phase"), ("eta", "eta")] if _strategy(c) == "sampled" else [])
+    if e == "erb":
+        return [("freq", "freq"), ("Hz", "Hz")]
+    raise KeyError(e)
+
+
+def _spelled(v, how):
+    """the python object for the float value v in another numeric type (exact: Fraction(float) is the binary value)"""
+    from fractions import Fraction
+    if how == "int":
+        assert v == int(v)
+        return int(v)
+    if how == "bool":
+        assert v in (0.0, 1.0)
+        return bool(v)
+    if how == "frac":
+        return Fraction(v)
+    return v
+
+
+def _real_call(c):
+    """the real call of a plain design case: which object is called (`via`: the strategy looked up with [] / as an
+    attribute / under an alias name / not at all = the StrategyDict itself, i.e. its default), how the arguments travel
+    (`args`: positional / keyword / first positional, rest keyword), in which numeric type (`spell`); a key that is
+    absent from the case is a parameter LEFT OUT of the call"""
+    import audiolazy as al
+    e = c["entry"]
+    sd = getattr(al, e)
+    via = c.get("via", "item")
+    if "strategy" not in c:
+        fn = sd
+    elif via == "attr":
+        fn = getattr(sd, c["strategy"])
+    elif via.startswith("alias:"):
+        fn = sd[via[6:]]
+    else:
+        fn = sd[c["strategy"]]
+    spell = c.get("spell", {})
+    vals = []
+    for key, pname in _param_names(c):
+        if key not in c:
+            continue
+        if key in ("delay", "eta"):
+            v = c[key]
+        else:
+            v = _fl(c[key])
+        if "rate" in c and key in ("cutoff", "freq", "Hz"):
+            Hz = al.sHz(c["rate"])[1]          # units: `fhz * Hz` as the docs write it
+            v = Hz if key == "Hz" else _fl(c["fhz"]) * Hz
+        vals.append((pname, _spelled(v, spell.get(key, "float"))))
+    how = c.get("args", "pos")
+    if how == "pos":
+        # a parameter after an omitted one can only travel by keyword
+        names = [k for k, _ in _param_names(c)]
+        present = [k in c for k in names]
+        npos = present.index(False) if False in present else len(names)
+        return fn, [v for _, v in vals[:npos]], dict(vals[npos:])
+    if how == "kw":
+        return fn, [], dict(vals)
+    return fn, [vals[0][1]], dict(vals[1:])
 
 
 # ----------------------------------------------------------------------------------------------
@@ -241,8 +328,151 @@ def generate(rng, tier, scale=1):
     # time domain; one comb filter object run on several signals at once (harness/props/c13_hist.py)
     cases.extend(hist.gen_hist(rng, tier, scale))
     cases.extend(hist.gen_long(rng, tier, scale))
+    cases.extend(gen_calls(rng, tier, scale))
     return cases
 
+
+
+def _shape(rng, c, allow_default=True):
+    """dress a plain design case with a call shape: how the strategy is reached and how the arguments travel"""
+    e = c["entry"]
+    via = rng.choice(["item", "attr", "alias", "default"])
+    if via == "default" and allow_default and c.get("strategy") == DEFAULT_STRATEGY[e]:
+        del c["strategy"]
+    elif via == "alias" and (e, c.get("strategy")) in ALIASES:
+        c["via"] = "alias:" + rng.choice(ALIASES[(e, c["strategy"])])
+    elif via == "attr":
+        c["via"] = "attr"
+    c["args"] = rng.choice(["pos", "kw", "mixed"])
+    return c
+
+
+def _spell_some(rng, c):
+    """another numeric type for every parameter whose value it can carry exactly"""
+    sp = {}
+    for k in ("cutoff", "freq", "bandwidth", "param", "phase", "Hz"):
+        if k in c and not isinstance(c[k], list):
+            v = _fl(c[k])
+            if v != v or v in (float("inf"), float("-inf")):
+                continue
+            kinds = ["frac"] + (["int"] if v == int(v) else []) + (["bool"] if v in (0.0, 1.0) else [])
+            t = rng.choice(kinds + ["float"])
+            if t != "float":
+                sp[k] = t
+    if sp:
+        c["spell"] = sp
+    return c
+
+
+def gen_calls(rng, tier, scale=1):
+    """call shapes (default strategies, aliases, attribute / item access, positional / keyword arguments, omitted
+    parameters), numeric spellings, units, boundary cut-offs, the erb branches"""
+    quick = tier == "quick"
+    reps = (1 if quick else 6) * scale
+    cases = []
+    for _ in range(reps):
+        # --- every default strategy called through the StrategyDict itself, positional and keyword
+        for args in ("pos", "kw"):
+            cases.append({"entry": "lowpass", "cutoff": _f(_rand_freq(rng)), "args": args})
+            cases.append({"entry": "highpass", "cutoff": _f(_rand_freq(rng)), "args": args})
+            cases.append({"entry": "resonator", "freq": _f(_rand_freq(rng)), "bandwidth": _f(_rand_bw(rng)), "args": args})
+            d = rng.randint(1, 6)
+            cases.append({"entry": "comb", "delay": d, "param": _f(rng.randint(-15, 15) / 16.0), "xs": _xs(rng, 2 * d + 3), "args": args})
+            cases.append({"entry": "gammatone", "freq": _f(rng.uniform(0.3, 2.8)), "bandwidth": _f(_rand_bw(rng)), "args": args})
+        # --- omitted parameters
+        for st in (None, "fb", "tau", "ff"):
+            d = rng.randint(1, 7)
+            c = {"entry": "comb", "delay": d, "xs": _xs(rng, 3 * d + 2), "args": rng.choice(["pos", "kw"])}
+            if st:
+                c["strategy"] = st
+                if rng.random() < 0.5:
+                    c["via"] = rng.choice(["attr", "alias:" + rng.choice(ALIASES[("comb", st)])])
+            cases.append(c)
+        for omit in (("phase",), ("eta",), ("phase", "eta"), ()):
+            for with_st in (True, False):
+                c = {"entry": "gammatone", "strategy": "sampled", "freq": _f(rng.uniform(0.3, 2.8)), "bandwidth": _f(_rand_bw(rng)),
+                     "phase": _f(rng.uniform(-PI, PI)), "eta": rng.choice([1, 2, 3, 5, 6]),
+                     "args": rng.choice(["pos", "kw", "mixed"])}
+                for k in omit:
+                    del c[k]
+                if not with_st:
+                    del c["strategy"]
+                elif rng.random() < 0.5:
+                    c["via"] = "attr"
+                cases.append(c)
+        # --- every strategy under every way to reach it, arguments positional / keyword, other numeric types
+        for band in ("lowpass", "highpass"):
+            for st in LP_STRATS:
+                v = rng.choice([1.0, 2.0, 3.0, 0.5, 1.5, _rand_freq(rng)])
+                cases.append(_spell_some(rng, _shape(rng, {"entry": band, "strategy": st, "cutoff": _f(v)})))
+        for st in RES_STRATS:
+            f = rng.choice([1.0, 2.0, 0.75, _rand_freq(rng)]) if st != "z_exp" else rng.choice([1.0, 2.0, 1.5])
+            bw = rng.choice([1.0, 0.5, 0.125, _rand_bw(rng)])
+            cases.append(_spell_some(rng, _shape(rng, {"entry": "resonator", "strategy": st, "freq": _f(f), "bandwidth": _f(bw)})))
+        for st in COMB_STRATS:
+            for _k in range(2):
+                d = rng.randint(1, 8)
+                p = rng.choice([1.0, 2.0, 0.5, 40.0, float("inf")]) if st == "tau" else rng.choice([1.0, 0.0, -1.0, 0.5, -0.25])
+                cases.append(_spell_some(rng, _shape(rng, {"entry": "comb", "strategy": st, "delay": d, "param": _f(p),
+                                                            "xs": _xs(rng, 2 * d + 3)})))
+        for st in GT_STRATS:
+            c = {"entry": "gammatone", "strategy": st, "freq": _f(rng.choice([1.0, 2.0, 0.5, rng.uniform(0.3, 2.8)])),
+                 "bandwidth": _f(rng.choice([1.0, 0.5, 0.0625, _rand_bw(rng)]))}
+            if st == "sampled":
+                c["phase"] = _f(rng.choice([0.0, 1.0, -0.5, rng.uniform(-PI, PI)]))
+                c["eta"] = rng.randint(1, 6)
+            c = _shape(rng, c)
+            if st != "sampled":            # normalised by a measured gain: exact Fractions change the rounding of freq - phase
+                c = _spell_some(rng, c)
+            cases.append(c)
+        # --- gammatone.sampled: every order with a non-zero phase and with phase 0 (well conditioned centre frequencies)
+        for eta in (1, 2, 3, 4, 5, 6):
+            for ph in (0.0, rng.choice([0.5, -1.25, 2.0, rng.uniform(-PI, PI)])):
+                cases.append({"entry": "gammatone", "strategy": "sampled", "freq": _f(rng.uniform(0.6, 2.5)),
+                              "bandwidth": _f(rng.uniform(0.05, 1.0)), "phase": _f(ph), "eta": eta})
+        # --- units: `f * Hz` with `s, Hz = sHz(rate)`
+        for rate in (44100, 8000, 48000.0):
+            Hz = 2 * PI / rate
+            fhz = rng.choice([100.0, 440.0, 1000.0, rng.uniform(20, rate / 2 - 20)])
+            band = rng.choice(["lowpass", "highpass"])
+            cases.append({"entry": band, "strategy": rng.choice(LP_STRATS), "cutoff": _f(fhz * Hz), "rate": rate, "fhz": _f(fhz)})
+            cases.append({"entry": "resonator", "strategy": rng.choice(["poles_exp", "freq_poles_exp", "freq_z_exp"]),
+                          "freq": _f(fhz * Hz), "bandwidth": _f(rng.uniform(10, 400) * Hz), "rate": rate, "fhz": _f(fhz)})
+            for st in ("gm90", "mg83"):
+                fhz = rng.choice([100.0, 1000.0, 4000.0, rng.uniform(20, rate / 2)])
+                cases.append(_shape(rng, {"entry": "erb", "strategy": st, "freq": _f(fhz * Hz), "Hz": _f(Hz), "rate": rate,
+                                          "fhz": _f(fhz)}))
+        # --- erb: Hz left out (hertz in, hertz out; below 7 refused), given by keyword / position, other numeric types
+        for st in ("gm90", "mg83"):
+            for f in (1000.0, 7.0, math.nextafter(7.0, 0), 6.0, 0.5, 20000.0, rng.uniform(7, 20000), rng.uniform(0, 7)):
+                cases.append(_spell_some(rng, _shape(rng, {"entry": "erb", "strategy": st, "freq": _f(f)})))
+            for f, hz in ((0.1, 2 * PI / 44100), (3.0, 1.0), (rng.uniform(0.01, 3.1), 2 * PI / rng.choice([8000, 22050, 96000]))):
+                cases.append(_spell_some(rng, _shape(rng, {"entry": "erb", "strategy": st, "freq": _f(f), "Hz": _f(hz)})))
+        # --- erb is elementwise in freq
+        for cont in ("list", "tuple", "Stream", "gen"):
+            for hz in (None, 2 * PI / 44100):
+                n = rng.randint(1, 4)
+                fs = [rng.uniform(7, 20000) if hz is None else rng.uniform(0.001, 3.1) for _ in range(n)]
+                if hz is None and rng.random() < 0.5:
+                    fs.insert(rng.randint(0, n), rng.uniform(0, 6.9))      # an item the call refuses
+                c = {"entry": "erbmap", "cont": cont, "freqs": [_f(f) for f in fs]}
+                if hz is not None:
+                    c["Hz"] = _f(hz)
+                if rng.random() < 0.6:
+                    c["strategy"] = rng.choice(["gm90", "mg83"])
+                cases.append(c)
+    if scale == 1:
+        # --- boundary cut-offs, outside the contract's quantifier: coefficients only (kind model)
+        for band in ("lowpass", "highpass"):
+            for st in LP_STRATS:
+                for v in (0.0, 1e-9, 1e-5, PI - 1e-5, PI - 1e-9, PI):
+                    cases.append({"entry": band, "strategy": st, "cutoff": _f(v), "nocontract": True})
+                cases.append({"entry": band, "strategy": st, "cutoff": 0, "nocontract": True, "spell": {"cutoff": "int"}})
+        for st in RES_STRATS:
+            for f in (0.0, PI):
+                for bw in (1e-3, 1.0):
+                    cases.append({"entry": "resonator", "strategy": st, "freq": _f(f), "bandwidth": _f(bw), "nocontract": True})
+    return cases
 
 # ----------------------------------------------------------------------------------------------
 # observation of the real code
@@ -302,6 +532,30 @@ def _param(p):
     return _fl(p)
 
 
+def _impl_erbmap(c):
+    """erb is elementwise in `freq`: a list / tuple / Stream / generator of frequencies gives the same kind of container
+    of bandwidths; the lazy kinds are read one item at a time up to the first exception"""
+    import audiolazy as al
+    fs = [_fl(x) for x in c["freqs"]]
+    cont = c["cont"]
+    arg = {"list": list, "tuple": tuple, "Stream": lambda v: al.Stream(v), "gen": lambda v: (x for x in v)}[cont](fs)
+    fn = al.erb if "strategy" not in c else al.erb[c["strategy"]]
+    kw = {"Hz": _fl(c["Hz"])} if "Hz" in c else {}
+    try:
+        r = fn(arg, **kw)
+    except Exception as ex:
+        return {"raised": err_kind(ex), "items": []}
+    o = {"type": "generator" if type(r).__name__ == "generator" else type(r).__name__, "items": []}
+    it = iter(r)
+    for _ in fs:
+        try:
+            o["items"].append({"v": enc(float(next(it)))})
+        except Exception as ex:
+            o["items"].append({"err": err_kind(ex)})
+            break
+    return o
+
+
 def impl(c):
     """hist / combhist: the first ISO_ALWAYS of a run alone in a fresh process (harness/props/c13_hist.py:zygote_start),
     everything else in this process — and again alone in a fresh process when it disagrees (see compare)"""
@@ -328,26 +582,33 @@ def impl_here(c):
         return hist.impl_run(c)
     try:
         if e in ("lowpass", "highpass"):
-            cut = _fl(c["cutoff"])
-            return _observe(getattr(al, e)[c["strategy"]](cut), cut)
+            fn, a, kw = _real_call(c)
+            return _observe(fn(*a, **kw), _fl(c["cutoff"]))
         if e == "resonator":
-            f, bw = _fl(c["freq"]), _fl(c["bandwidth"])
-            return _observe(al.resonator[c["strategy"]](f, bw), f)
+            fn, a, kw = _real_call(c)
+            return _observe(fn(*a, **kw), _fl(c["freq"]))
         if e == "comb":
-            p = _fl(c["param"])
-            filt = al.comb[c["strategy"]](c["delay"], p)
+            fn, a, kw = _real_call(c)
+            filt = fn(*a, **kw)
             xs = hist.xs_of(c)
             return {"num": [enc(float(x)) for x in filt.numerator], "den": [enc(float(x)) for x in filt.denominator],
                     "out": [enc(float(y)) for y in filt(xs)]}
         if e == "gammatone":
-            f, bw = _fl(c["freq"]), _fl(c["bandwidth"])
-            if c["strategy"] == "sampled":
-                g = al.gammatone.sampled(f, bw, phase=_fl(c["phase"]), eta=c["eta"])
-            else:
-                g = al.gammatone[c["strategy"]](f, bw)
+            fn, a, kw = _real_call(c)
+            g = fn(*a, **kw)
+            f = _fl(c["freq"])
             return {"type": type(g).__name__, "sections": [_observe(s, f) for s in g]}
         if e == "erb":
-            return {"value": enc(float(al.erb[c["strategy"]](_fl(c["freq"]), _fl(c["Hz"]))))}
+            fn, a, kw = _real_call(c)
+            v = fn(*a, **kw)
+            o = {"value": enc(float(v)), "type": type(v).__name__}
+            if "rate" in c:
+                # units (theorem erb_units): the bandwidth in rad/sample is the hertz formula times Hz
+                Hz = al.sHz(c["rate"])[1]
+                o["units_ref"] = enc(float(al.erb[_strategy(c)](_fl(c["fhz"])) * Hz))
+            return o
+        if e == "erbmap":
+            return _impl_erbmap(c)
         if e == "erb_constants":
             x, y = al.gammatone_erb_constants(c["n"])
             return {"value": [enc(float(x)), enc(float(y))]}
@@ -373,7 +634,9 @@ def impl_here(c):
                     cf = [al.comb[c["strategy"]](c["delay"], _fl(_cyc(c["param"], i)))]
                 consts.append([{"num": [enc(float(x)) for x in f.numerator],
                                 "den": [enc(float(x)) for x in f.denominator]} for f in cf])
-            return {"samples": [_coef_samples(f, n) for f in filts], "const": consts}
+            ids = [id(v) for f in filts for d in (f.numdict, f.dendict) for v in d.values() if isinstance(v, al.Stream)]
+            return {"samples": [_coef_samples(f, n) for f in filts], "const": consts,
+                    "shared": len(ids) != len(set(ids)), "ncoefstreams": len(ids)}
         return {"err": "bad-entry"}
     except Exception as ex:
         return {"err": err_kind(ex)}
@@ -387,11 +650,14 @@ def request(c):
     if c["entry"] == "run":
         return hist.request_run(c)
     if c["entry"] == "comb" and "sig" in c:
-        r = {k: v for k, v in c.items() if k != "sig"}
+        r = {k: v for k, v in c.items() if k not in HARNESS_KEYS}
         r["xs"] = [_f(x) for x in hist.xs_of(c)]
         return r
+    if c["entry"] == "erbmap":
+        base = {k: c[k] for k in ("strategy", "Hz") if k in c}
+        return {"entry": "multi", "cases": [dict(base, entry="erb", freq=f) for f in c["freqs"]]}
     if c["entry"] != "stream":
-        return dict(c)
+        return {k: v for k, v in c.items() if k not in HARNESS_KEYS}
     d, n = c["design"], c["take"]
     subs = []
     for i in range(n):
@@ -414,6 +680,19 @@ def _close_list(xs, ys, tol):
         return False
     scale = max([1.0] + [abs(_fl(y)) for y in ys])
     return all(abs(_fl(x) - _fl(y)) <= tol * scale for x, y in zip(xs, ys))
+
+
+def _ulp_dist(xs, ys):
+    """largest |x - y| in units of the ulp of the largest |y| (inf when the lengths differ)"""
+    if len(xs) != len(ys):
+        return float("inf")
+    ys = [_fl(y) for y in ys]
+    u = math.ulp(max([abs(y) for y in ys] + [5e-324]))
+    return max([abs(_fl(x) - y) / u for x, y in zip(xs, ys)] + [0.0])
+
+
+def _ulp_close(xs, ys, k=UTOL):
+    return _ulp_dist(xs, ys) <= k
 
 
 def _poles(den):
@@ -508,9 +787,13 @@ def _check_contract(name, obs, spec, out):
             bad("monotone", "|H| on the grid is not %s: %r" % ("increasing" if s > 0 else "decreasing", grid[:6]))
 
 
+_ULP = []          # distances seen by the comparison of the current case (read and cleared by tally)
+
+
 def _check_coefs(name, obs, model, out):
+    _ULP.append(max(_ulp_dist(obs[part], model[part]) for part in ("num", "den")))
     for part in ("num", "den"):
-        if not _close_list(obs[part], model[part], TOL):
+        if not _ulp_close(obs[part], model[part]):
             out.append(("model", name + ":coefficients", "%s: impl %r model %r" % (
                 part, [_fl(x) for x in obs[part]], [_fl(x) for x in model[part]])))
 
@@ -536,6 +819,7 @@ def _check_section(name, obs, model, w, out):
 
 def _problems(c, io, drv):
     out = []
+    del _ULP[:]
     e = c["entry"]
     if e == "hist":
         return hist.problems_hist(c, io, drv)
@@ -543,7 +827,9 @@ def _problems(c, io, drv):
         return hist.problems_combhist(c, io, drv)
     if e == "run":
         return hist.problems_run(c, io, drv)
-    name = e + "." + str(c.get("strategy", ""))
+    name = e + "." + str(_strategy(c))
+    if e == "erbmap":
+        return _problems_erbmap(c, io, drv)
     if "err" in drv:
         if io.get("err") != drv["err"]:
             out.append(("model", name + ":error", "impl %r model raises %s" % (io, drv["err"])))
@@ -553,7 +839,8 @@ def _problems(c, io, drv):
         return [("model", name + ":raised", "impl raised " + io["err"]), ("spec", name + ":raised:" + io["err"], "impl raised " + io["err"])]
     if e in ("lowpass", "highpass", "resonator"):
         _check_coefs(name, io, drv["model"], out)
-        _check_contract(name, io, drv["spec"], out)
+        if not c.get("nocontract"):
+            _check_contract(name, io, drv["spec"], out)
     elif e == "comb":
         _check_coefs(name, io, drv["model"], out)
         if not _close_list(io["out"], drv["run"], TOL):
@@ -561,7 +848,7 @@ def _problems(c, io, drv):
         if not _close_list(io["out"], drv["spec"]["out"], TOL):
             out.append(("spec", name + ":difference-equation", "delay %d, %d input samples: %s" % (
                 c["delay"], len(io["out"]), hist._first_diff(io["out"], drv["spec"]["out"]))))
-        if c["strategy"] == "tau":
+        if _strategy(c) == "tau":
             d = c["delay"]
             den = [_fl(x) for x in io["den"]]
             got = -den[d] if len(den) == d + 1 else 0.0
@@ -576,17 +863,28 @@ def _problems(c, io, drv):
             out.append(("spec", name + ":sections", "%d sections, required %d" % (len(secs), len(drv["spec"]))))
         else:
             for i, (s, m, sp) in enumerate(zip(secs, drv["model"], drv["spec"])):
-                _check_section(name + "[%d]" % i, s, m, _fl(c["freq"]), out)
+                if _strategy(c) == "klapuri":
+                    _check_coefs(name + "[%d]" % i, s, m, out)      # resonator sections: no normalisation by a measured gain
+                else:
+                    _check_section(name + "[%d]" % i, s, m, _fl(c["freq"]), out)
                 _check_contract(name, s, sp, out)
     elif e == "erb":
-        if not close(_fl(io["value"]), _fl(drv["model"]), 1e-12):
+        if not _ulp_close([io["value"]], [drv["model"]]):
             out.append(("model", name + ":value", "impl %r model %r" % (_fl(io["value"]), _fl(drv["model"]))))
+        if io.get("type") != "float":
+            out.append(("spec", name + ":type", "erb of a number returned a %s" % io.get("type")))
+        if "units_ref" in io and not _ulp_close([io["value"]], [io["units_ref"]], 8):
+            out.append(("spec", name + ":units", "erb(f*Hz, Hz) = %r but erb(f) * Hz = %r (sHz(%r))" % (
+                _fl(io["value"]), _fl(io["units_ref"]), c["rate"])))
     elif e == "erb_constants":
-        if not _close_list(io["value"], drv["model"], 1e-12):
+        if not _ulp_close(io["value"][:1], drv["model"][:1]) or not _ulp_close(io["value"][1:], drv["model"][1:]):
             out.append(("model", name + ":value", "impl %r model %r" % (io["value"], drv["model"])))
     elif e == "stream":
         name = "stream." + c["design"] + "." + c["strategy"]
         n = c["take"]
+        if io.get("shared"):
+            out.append(("spec", name + ":shared-coefficient-object", "one Stream object is the coefficient of two places of the "
+                        "cascade / filter: its items would be split between them"))
         for fi, samples in enumerate(io["samples"]):
             for i in range(n):
                 m = drv["results"][i]["model"]
@@ -600,11 +898,45 @@ def _problems(c, io, drv):
                     if not _close_list(got, k[part], 1e-12):
                         out.append(("spec", name + ":sample-by-sample", "instant %d %s: Stream-valued design %r, constant design %r" % (
                             i, part, [_fl(x) for x in got], [_fl(x) for x in k[part]])))
-                    if not _close_list(got, m[part], TOL):
+                    if not _ulp_close(got, m[part]):
                         out.append(("model", name + ":sample-by-sample", "instant %d %s: impl %r model %r" % (
                             i, part, [_fl(x) for x in got], [_fl(x) for x in m[part]])))
                     if out:
                         return out
+    return out
+
+
+def _problems_erbmap(c, io, drv):
+    """elementwise erb: the container kind is kept, item k is the call on frequency k (model: erbCall per item); an
+    eager container (list / tuple) raises as a whole when an item does, a lazy one (Stream / generator) at that item"""
+    name = "erbmap." + _strategy(c) + "." + c["cont"]
+    out = []
+    want = drv["results"]
+    first_err = next((k for k, w in enumerate(want) if "err" in w), None)
+    eager = c["cont"] in ("list", "tuple")
+    if eager and first_err is not None:
+        if io.get("raised") != want[first_err]["err"]:
+            out.append(("model", name + ":error", "impl %r, model: item %d raises %s" % (io, first_err, want[first_err]["err"])))
+            out.append(("spec", name + ":error", "impl %r, required %s" % (io, want[first_err]["err"])))
+        return out
+    if "raised" in io:
+        return [("model", name + ":raised", "impl raised " + io["raised"]), ("spec", name + ":raised:" + io["raised"], "impl raised " + io["raised"])]
+    kind = {"list": "list", "tuple": "tuple", "Stream": "Stream", "gen": "generator"}[c["cont"]]
+    if io["type"] != kind:
+        out.append(("spec", name + ":type", "erb of a %s returned a %s" % (kind, io["type"])))
+    nread = len(want) if first_err is None else first_err + 1
+    if len(io["items"]) != nread:
+        out.append(("spec", name + ":length", "%d items read, required %d" % (len(io["items"]), nread)))
+        return out
+    for k, (got, w) in enumerate(zip(io["items"], want)):
+        if "err" in w or "err" in got:
+            if got.get("err") != w.get("err"):
+                out.append(("model", name + ":item", "item %d: impl %r model %r" % (k, got, w)))
+                out.append(("spec", name + ":item-error", "item %d: impl %r required %r" % (k, got, w)))
+        elif not _ulp_close([got["v"]], [w["model"]]):
+            out.append(("model", name + ":item", "item %d: impl %r model %r" % (k, _fl(got["v"]), _fl(w["model"]))))
+            out.append(("spec", name + ":elementwise", "item %d (frequency %r): %r, the call on that frequency alone gives %r" % (
+                k, _fl(c["freqs"][k]), _fl(got["v"]), _fl(w["model"]))))
     return out
 
 
@@ -652,6 +984,9 @@ def nontrivial(c, io):
 
 def tally(eng, c, io):
     e = c["entry"]
+    for u in _ULP:
+        eng.count("coef_ulp", "bit-exact" if u == 0 else "<=%d ulp" % UTOL if u <= UTOL else "more (reported)")
+    del _ULP[:]
     if e == "hist":
         eng.count("entry", "hist")
         for d in c["dsgs"]:
@@ -665,6 +1000,25 @@ def tally(eng, c, io):
         hist.tally_long(eng, c, io)
         return
     eng.count("entry", e + ("." + c["design"] if e == "stream" else "") + "." + str(c.get("strategy", "")))
+    if e in DEFAULT_STRATEGY and "sig" not in c:
+        # call shape: which object is called, how the arguments travel, which are left out, their numeric types
+        eng.count("call_via", e + ":" + ("default (StrategyDict called)" if "strategy" not in c else c.get("via", "item").split(":")[0]))
+        eng.count("call_args", c.get("args", "pos"))
+        left = [k for k, _ in _param_names(c) if k not in c]
+        eng.count("call_omitted", e + ":" + (",".join(left) if left else "-"))
+        for k, t in sorted(c.get("spell", {}).items()):
+            eng.count("param_spelling", k + ":" + t)
+        if "rate" in c:
+            eng.count("units", e + ": f*Hz with sHz(%s)" % c["rate"])
+        if c.get("nocontract"):
+            eng.count("boundary", e + "." + _strategy(c) + ":" + ("0" if _fl(c.get("cutoff", c.get("freq"))) == 0 else
+                      "pi" if _fl(c.get("cutoff", c.get("freq"))) == PI else "near 0" if _fl(c.get("cutoff", c.get("freq"))) < 1 else "near pi"))
+    if e == "erbmap":
+        eng.count("erbmap", c["cont"] + ":" + ("Hz given" if "Hz" in c else "Hz omitted") + ":" + (
+            "raises" if io.get("raised") or any("err" in it for it in io["items"]) else "ok"))
+        return
+    if e == "erb":
+        eng.count("erb_branch", ("Hz given" if "Hz" in c else "Hz omitted") + ":" + ("ValueError" if "err" in io else "ok"))
     if e == "combhist" or (e == "comb" and "sig" in c):
         hist.tally_long(eng, c, io)
         if "err" in io:
@@ -677,13 +1031,13 @@ def tally(eng, c, io):
         if k in c and not isinstance(c[k], list):
             v = _fl(c[k])
             eng.count("frequency_bucket", "%.1f" % (math.floor(v * 5) / 5))
-            if e in ("lowpass", "highpass") and c["strategy"] == "z":
+            if e in ("lowpass", "highpass") and _strategy(c) == "z":
                 eng.count("z_branch", "cos==0" if math.cos(v) == 0 else "cos!=0")
     if "bandwidth" in c and not isinstance(c["bandwidth"], list):
         eng.count("bandwidth_bucket", "%.1f" % (math.floor(_fl(c["bandwidth"]) * 10) / 10))
     if e == "resonator":
         _p, kind = _poles(io["den"])
-        eng.count("resonator_poles", c["strategy"] + ":" + kind)
+        eng.count("resonator_poles", _strategy(c) + ":" + kind)
     if e == "comb":
         eng.count("comb_delay", c["delay"])
         eng.count("comb_den_len", len(io["den"]))
@@ -693,8 +1047,10 @@ def tally(eng, c, io):
         t = 64 * EPS * _cond(io["sections"][0]["num"], io["sections"][0]["den"], _fl(c["freq"]))
         eng.count("gammatone_gain_tolerance", "<1e-9" if t < 1e-9 else "<1e-6" if t < 1e-6 else "<1e-3" if t < 1e-3
                   else "<1e-1" if t < 1e-1 else ">=1e-1 (rounding dominates: check vacuous)")
-        if c["strategy"] == "sampled":
-            eng.count("gammatone_eta", c["eta"])
+        if _strategy(c) == "sampled":
+            eng.count("gammatone_eta", c.get("eta", "omitted (4)"))
+            eng.count("gammatone_eta_phase", "eta=%s:phase%s" % (c.get("eta", "omitted"), " omitted" if "phase" not in c else
+                      "=0" if _fl(c["phase"]) == 0 else "!=0"))
 
 
 def extra_checks(eng):
@@ -761,7 +1117,7 @@ def shrink(c):
             yield dict(c, take=c["take"] - 1)
         return
     for k in ("cutoff", "freq", "bandwidth", "phase", "param"):
-        if k in c:
+        if k in c and "rate" not in c and k not in c.get("spell", {}) and e != "erbmap":
             for v in _simpler(c[k]):
                 ok = (LO <= v <= HI) if k in ("cutoff", "freq") else (1e-3 <= v <= 1) if k == "bandwidth" else True
                 if ok:
@@ -774,8 +1130,15 @@ def shrink(c):
             yield dict(c, xs=xs[:-1])
         if any(_fl(x) != 0 for x in xs[1:]):
             yield dict(c, xs=[1] + [0] * (len(xs) - 1))
-    if e == "gammatone" and c["strategy"] == "sampled" and c.get("eta", 1) > 1:
+    if e == "gammatone" and _strategy(c) == "sampled" and c.get("eta", 1) > 1:
         yield dict(c, eta=c["eta"] - 1)
+    # a plainer call: same numbers, default shape
+    for k in ("spell", "args", "via", "rate"):
+        if k in c and not (k == "via" and "strategy" not in c):
+            yield {kk: v for kk, v in c.items() if kk != k and not (k == "rate" and kk == "fhz")}
+    if e == "erbmap" and len(c["freqs"]) > 1:
+        yield dict(c, freqs=c["freqs"][:-1])
+        yield dict(c, freqs=c["freqs"][1:])
 
 
 def neighbours(c):
@@ -783,7 +1146,7 @@ def neighbours(c):
     if e in ("hist", "combhist", "run"):
         return
     for k in ("cutoff", "freq", "bandwidth", "param"):
-        if k in c and not isinstance(c[k], list):
+        if k in c and not isinstance(c[k], list) and "rate" not in c and k not in c.get("spell", {}) and e != "erbmap":
             v = _fl(c[k])
             if v != v or v in (float("inf"), float("-inf")):
                 continue
@@ -796,7 +1159,7 @@ def neighbours(c):
         for d in (-1, 1):
             if c["delay"] + d >= 1:
                 yield dict(c, delay=c["delay"] + d)
-    if e == "gammatone" and c["strategy"] == "sampled":
+    if e == "gammatone" and _strategy(c) == "sampled" and "eta" in c:
         for d in (-1, 1):
             if c["eta"] + d >= 1:
                 yield dict(c, eta=c["eta"] + d)
